@@ -131,7 +131,7 @@ func main() {
 	frozen := make([]string, len(caps))
 	sem := make(chan struct{}, 5)
 	var wg sync.WaitGroup
-	budget := time.Duration(a.Pick(70, 400)) * time.Second
+	budget := time.Duration(a.Pick(150, 500)) * time.Second
 	for i, cp := range caps {
 		wg.Add(1)
 		go func(i, cp int) {
